@@ -11,8 +11,21 @@ func c09atomTriple(name string) ResourceScope {
 func c09list(name string, max int) []ResourceScope {
 	n := verifChoose(name+".n", max+1)
 	var l []ResourceScope
+	// sameResource=1: all triples of the list share one (symbolic) resource type and
+	// resource and differ in their actions only - the per-repository action ordering, at
+	// a fraction of the cost of fully independent triples
+	same := verifParam("sameResource", 0) == 1
+	var first ResourceScope
 	for i := 0; i < n; i++ {
-		l = append(l, c09atomTriple(name))
+		t := c09atomTriple(name)
+		if same {
+			if i == 0 {
+				first = t
+			} else {
+				t.ResourceType, t.Resource = first.ResourceType, first.Resource
+			}
+		}
+		l = append(l, t)
 	}
 	return l
 }
